@@ -18,6 +18,10 @@ func (X *Exec) zero(T types.Type) *Term {
 	ts := X.E.TS
 	srt := X.E.SortOf(T)
 	switch {
+	case srt.BV != 0:
+		return ts.BVLit(big.NewInt(0), srt.BV)
+	case srt.FP != 0:
+		return ts.FPLitDecimal("0", srt)
 	case srt == SInt:
 		return ts.IntLit(0)
 	case srt == SBool:
@@ -77,6 +81,9 @@ func (X *Exec) validity(st *State, t *Term, T types.Type, depth int) *Term {
 	}
 	switch u := T.Underlying().(type) {
 	case *types.Basic:
+		if t.Sort != SInt {
+			return nil
+		}
 		if _, _, ok := intRange(T); ok {
 			return X.E.inRange(t, T)
 		}
@@ -133,6 +140,11 @@ func (X *Exec) constTerm(c *ssa.Const) *Val {
 			return &Val{T: ts.IntLit(0), GT: T}
 		}
 		return &Val{T: X.zero(T), GT: T}
+	}
+	if X.E.BV {
+		if b, ok := T.Underlying().(*types.Basic); ok && b.Info()&(types.IsInteger|types.IsFloat) != 0 && (c.Value.Kind() == constant.Int || c.Value.Kind() == constant.Float) {
+			return &Val{T: X.bvConst(c.Value, T), GT: T}
+		}
 	}
 	switch c.Value.Kind() {
 	case constant.Bool:
